@@ -50,6 +50,11 @@ def typing_obligations(run, prop, rule, repo, sc, scen, mods=None):
             if semantic:
                 run.oblige(rule, (where, cons, 'reshape'), False)
                 run.add(Finding(prop, rule, where, cons, f'reshape does not respect the tensor structure ({scen}): {e["detail"]}', f, ln, {'scenario': scen}))
+        elif k in ('complex-loss', 'float-loss') and e.get('target') is not None and any(l.resolve().kind in ('R', 'M') for g in e['target'].legs for l in g):
+            # (arrays that carry tensor-train indices: a core, or a factor on its way into one)
+            where, cons, f, ln = ev_where(repo, e, mods)
+            run.oblige(rule, (where, cons, 'dtype'), False)
+            run.add(Finding(prop, rule, where, cons, f'a tensor-train core loses its imaginary / fractional part ({scen}): {e["detail"]}', f, ln, {'scenario': scen}))
         elif k == 'abs-discard':
             if any(l.resolve().kind in ('R', 'M') for g in e['array'].legs for l in g):
                 where, cons, f, ln = ev_where(repo, e, mods)
